@@ -223,8 +223,15 @@ static bool gen_sweep_plan(uint64_t seed, int min_clients, Plan & p)
   // keep base + k*stride inside the 48-bit domain most functions are defined on (a quarter of the sweeps may leave it)
   uint64_t room = (1ull << 47) / stride; if (room < 4) room = 32768; if (room > (1ull << 20)) room = 1ull << 20;
   if (r.chance(25)) room *= 4;
-  uint64_t base = r.chance(60) ? 1 + r.below(stride < (1ull << 40) ? stride : (1ull << 40)) : fresh_arg(r, op.ka);
-  if (op.ka != K_FX && stride > (1ull << 24)) { stride = 1ull << 16; ak = AL_LOW16; room = 30000; }      // integer and float carriers: 16-bit strides
+  uint64_t base = (op.ka == K_FX && r.chance(60)) ? 1 + r.below(stride < (1ull << 40) ? stride : (1ull << 40)) : fresh_arg(r, op.ka);
+  if (op.ka == K_SH) return false;                           // shift counts have a seven-bit domain: nothing to sweep
+  if (op.ka != K_FX)
+    {   // integer, float, angle and table-index carriers: their generators (fresh_arg) own the argument domain - stay inside it.
+        // Strides are multiples of 65536 (beyond a 16-bit carrier: the same question; within a wider one: same low half)
+        // or, for angles, of 360 degrees; angles stay non-negative 31-bit values as everywhere else in the workload.
+    bool deg = op.ka == K_ANG && r.chance(50);
+    stride = deg ? 360 : (1ull << 16); ak = deg ? AL_LOW32 : AL_LOW16; room = deg ? 1000000 : 30000;
+    }
   uint64_t b0 = fresh_arg(r, op.kb);
   size_t n = 48 + r.below(353);
   p.nontrivial = true; p.sweep = true;
@@ -232,7 +239,7 @@ static bool gen_sweep_plan(uint64_t seed, int min_clients, Plan & p)
     {
     Item it{}; it.client = static_cast<uint8_t>(r.below(p.clients)); it.op = opi; it.alias = static_cast<uint8_t>(i ? ak : AL_NONE); it.alias_of = i ? 0 : -1;
     if (i > 4 && r.chance(12)) { const Item & e = p.items[r.below(i)]; it.a = e.a; it.b = e.b; it.alias = AL_SAME; }       // ask an earlier one again
-    else { it.a = i ? base + (1 + r.below(room)) * stride : base; it.b = r.chance(85) ? b0 : fresh_arg(r, op.kb); }
+    else { it.a = i ? base + (1 + r.below(room)) * stride : base; if (op.ka == K_ANG) it.a &= 0x7fffffffull; it.b = r.chance(85) ? b0 : fresh_arg(r, op.kb); }
     if (!op.ok(it.a, it.b)) { it.a = 65536; it.b = (op.kb == K_FX) ? 65536 : 1; it.alias = AL_NONE; it.alias_of = -1; }
     p.items.push_back(it);
     }
